@@ -40,16 +40,19 @@ func errUnimplementedOp(op encoder.OpType) error {
 }
 
 func load(base uintptr, idx uint32) uintptr {
+	encoder.VerifSlotLoad(base, idx)
 	addr := base + uintptr(idx)
 	return **(**uintptr)(unsafe.Pointer(&addr))
 }
 
 func store(base uintptr, idx uint32, p uintptr) {
+	encoder.VerifSlotStore(base, idx)
 	addr := base + uintptr(idx)
 	**(**uintptr)(unsafe.Pointer(&addr)) = p
 }
 
 func loadNPtr(base uintptr, idx uint32, ptrNum uint8) uintptr {
+	encoder.VerifSlotLoad(base, idx)
 	addr := base + uintptr(idx)
 	p := **(**uintptr)(unsafe.Pointer(&addr))
 	for i := uint8(0); i < ptrNum; i++ {
